@@ -100,6 +100,11 @@ func genKwCall(r *RNG) *kwCase {
 			params = append(params, n+": "+Pick(r, kwValueExprs))
 		}
 	}
+	// a method that also collects the remaining keywords in a hash
+	dsplat := r.Chance(1, 4)
+	if dsplat {
+		params = append(params, "**opts")
+	}
 	var sb strings.Builder
 	inClass := r.Chance(1, 2)
 	static := inClass && r.Chance(1, 3)
@@ -119,6 +124,10 @@ func genKwCall(r *RNG) *kwCase {
 	fmt.Fprintf(&sb, "%sdef %skwm(%s)\n", ind, self, strings.Join(params, ", "))
 	for _, n := range names {
 		fmt.Fprintf(&sb, "%s  dbtp %s\n", ind, n)
+	}
+	if dsplat {
+		// everything derived from the collected hash
+		fmt.Fprintf(&sb, "%s  dbtp opts\n%s  dbtp opts[:zzk1]\n%s  dbtp opts.values\n%s  dbtp opts.keys\n%s  opts.each do |ok, ov|\n%s    dbtp ov\n%s  end\n", ind, ind, ind, ind, ind, ind, ind)
 	}
 	fmt.Fprintf(&sb, "%s  %s\n%send\n", ind, Pick(r, names), ind)
 	if inClass {
@@ -178,6 +187,14 @@ func genKwCall(r *RNG) *kwCase {
 	default:
 		shape += ":all-given"
 	}
+	if dsplat {
+		// two or three more keywords of different classes for the hash
+		kws = append(kws, "zzk1: 7", "zzk2: \"info\"")
+		if r.Bool() {
+			kws = append(kws, "zzk3: 2.5")
+		}
+		shape += ":double-splat"
+	}
 	if len(kws) < 2 {
 		kws = append(kws, "zzextra: 2")
 	}
@@ -203,7 +220,7 @@ func init() {
 			return judgeKw(c, s.BlackBox(), &k)
 		},
 		Run: func(c *CheckCtx) {
-			c.rule = "calls with 2-5 keyword arguments against generated user methods (top level, instance, class methods; required and defaulted keywords mixed with 0-2 positionals; all given / one missing / one unknown; with and without parentheses) and against the configured methods that declare keywords (Dir.glob base:, Test.keyword_json_test name:); every permutation of the keyword arguments for up to 4 keywords and a seeded sample of the 120 for 5 is compared with the written order; modes plain and -i. distinct_nontrivial = distinct (program, permutation, mode) with non-empty output"
+			c.rule = "calls with 2-5 keyword arguments against generated user methods (top level, instance, class methods; required and defaulted keywords mixed with 0-2 positionals; all given / one missing / one unknown; one method in four also declares **opts, receives two or three further keywords of different classes and prints the hash, a lookup, its values, its keys and the block variables of each; with and without parentheses) and against the configured methods that declare keywords (Dir.glob base:, Test.keyword_json_test name:); every permutation of the keyword arguments for up to 4 keywords and a seeded sample of the 120 for 5 is compared with the written order; modes plain and -i. distinct_nontrivial = distinct (program, permutation, mode) with non-empty output"
 			c.assumptions = []string{"pairs in which a run crashes or hangs are skipped (C01/C02)"}
 			r := c.RNG.Sub(14)
 			var jobs []*kwCase
